@@ -18,9 +18,10 @@ PROPERTY = "C05"
 DTS = [0.1, 0.37, 5.0]
 HYPER = (
     [("newmark", {"beta": b, "gamma": g}) for b, g in [(0.25, 0.5), (0.3, 0.6), (1 / 6, 0.5), (0.4, 0.7)]]
+    # alpha: 0 (= newmark), two interior values and 0.5 (the default of the argument; = midpoint only for the default beta, gamma)
     # (beta, gamma) pairs: the default, one with gamma == 2 beta, and one with gamma != 2 beta (several history
     # coefficients vanish identically when gamma == 2 beta, which would hide an error in them)
-    + [("hht", {"alpha": al, "beta": b, "gamma": g}) for al in (0.0, 0.1, 0.3) for b, g in [(0.25, 0.5), (0.3, 0.6), (0.3025, 0.65)]]
+    + [("hht", {"alpha": al, "beta": b, "gamma": g}) for al in (0.0, 0.1, 0.3, 0.5) for b, g in [(0.25, 0.5), (0.3, 0.6), (0.3025, 0.65)]]
     + [("hht_newmark", {"alpha": al}) for al in (0.0, 1 / 6, 1 / 3)]
     + [("midpoint", {}), ("euler_implicit", {}), ("euler_explicit", {})]
 )
